@@ -56,6 +56,27 @@ func mentionsField(v ssa.Value, field string) bool {
 	return mentions(v, func(w ssa.Value) bool { return isFieldRef(w, field) }, 6)
 }
 
+// isPureLoadOf: v is exactly a load of the field (through conversions), with no
+// arithmetic or other computation in between.
+func isPureLoadOf(v ssa.Value, field string) bool {
+	for i := 0; i < 6; i++ {
+		switch x := v.(type) {
+		case *ssa.Convert:
+			v = x.X
+		case *ssa.ChangeType:
+			v = x.X
+		case *ssa.UnOp:
+			return x.Op == token.MUL && isFieldRef(x.X, field)
+		case *ssa.Field:
+			n, ok := fieldName(x)
+			return ok && n == field
+		default:
+			return false
+		}
+	}
+	return false
+}
+
 // mentionsCall: the bounded backward slice of v contains a call to one of names.
 func mentionsCall(v ssa.Value, names ...string) bool {
 	return mentions(v, func(w ssa.Value) bool { return isCallTo(w, names...) }, 6)
